@@ -314,6 +314,9 @@ func runCheck(args []string) int {
 	if tier == "thorough" {
 		quickMs, fullMs = 10000, 60000
 	}
+	if os.Getenv("GVC_SURVEY") != "" {
+		quickMs, fullMs = 1500, 3000 // survey of what discharges at all (used to draw up function lists, never by a registered check)
+	}
 	solveAll(results, quickMs, fullMs)
 	// vacuity canaries
 	canaryBad := runCanaries(results)
